@@ -6,7 +6,7 @@
 set -u
 ID=$1; V=$2; shift 2
 CHECKS=${@:-$ID}
-SRC=/tmp/seed/$ID/seed/$V
+SRC=${SEEDROOT:-/tmp/seed}/$ID/seed/$V
 ROOT=/tmp/vpmut
 WT=$ROOT/seedwt-$ID-$V
 mkdir -p $ROOT
